@@ -17,6 +17,14 @@ pub struct C10 {
 pub struct C10Case {
     pub start: u16,
     pub ops: Vec<Op>,
+    /// when non-zero: instead of `ops`, sign `sweep` times with key `sweep_key` at consecutive
+    /// timestamps starting at `sweep_t0` (many distinct signature values: short MPIs etc.)
+    #[serde(default)]
+    pub sweep: u32,
+    #[serde(default)]
+    pub sweep_key: u8,
+    #[serde(default)]
+    pub sweep_t0: u32,
 }
 
 #[derive(Clone, Copy, Debug, PartialEq)]
@@ -61,7 +69,7 @@ impl Property for C10 {
         C10 { starts }
     }
     fn rule(&self) -> String {
-        format!("operation histories over {{sign with rsa4096, passphrase-protected rsa3072, ed25519, ecdsa-p256; clear; write+re-parse}} from {} starting packages (built without files, built with files, three rpmbuild-made assets incl. foreign-signed ones, one library-signed): ALL histories of length <= 3 (quick) / <= 4 (thorough) plus random histories of length 4..8; the oracle (a model of the signing state) is evaluated after every step. Non-trivial = the history contains a sign that is later followed by a different sign or a clear; distinct by construction (enumerated) / by hash (random).", self.starts.len())
+        format!("operation histories over {{sign with rsa4096, passphrase-protected rsa3072, ed25519, ecdsa-p256; clear; write+re-parse}} from {} starting packages (built without files, built with files, three rpmbuild-made assets incl. foreign-signed ones, one library-signed): ALL histories of length <= 3 (quick) / <= 4 (thorough) plus random histories of length 4..8, plus a sweep that signs each start package at thousands of consecutive timestamps (distinct signature values) and verifies each; the oracle (a model of the signing state) is evaluated after every step. Non-trivial = the history contains a sign that is later followed by a different sign or a clear; distinct by construction (enumerated) / by hash (random).", self.starts.len())
     }
     fn assumptions(&self) -> Vec<String> {
         vec![
@@ -70,7 +78,7 @@ impl Property for C10 {
         ]
     }
     fn required_labels(&self, _t: Tier) -> Vec<&'static str> {
-        vec!["resigned-with-other-key", "sign-then-clear", "foreign-start", "signer-rsa4096", "signer-rsa3072_protected", "signer-ed25519", "signer-ecdsa_p256"]
+        vec!["signature-sweep", "resigned-with-other-key", "sign-then-clear", "foreign-start", "signer-rsa4096", "signer-rsa3072_protected", "signer-ed25519", "signer-ecdsa_p256"]
     }
     fn phases(&self, tier: Tier) -> Vec<Phase<C10Case>> {
         let maxlen = tier.pick(3, 4) as u32;
@@ -83,15 +91,29 @@ impl Property for C10 {
                 name: "all-short-histories",
                 total: per * ns,
                 exhaustive: true,
-                gen: Arc::new(move |i| history(i / ns, maxlen).map(|ops| C10Case { start: s2[(i % ns) as usize], ops })),
+                gen: Arc::new(move |i| history(i / ns, maxlen).map(|ops| C10Case { start: s2[(i % ns) as usize], ops, sweep: 0, sweep_key: 0, sweep_t0: 0 })),
             },
             Phase::Random {
                 name: "long-histories",
                 cases: tier.pick(300, 4_000),
                 strat: Arc::new(move || {
                     let st = starts.as_ref().clone();
-                    (proptest::sample::select(st), proptest::collection::vec(prop_oneof![6 => op_cheap(), 1 => Just(Op::Sign(1))], 4..9)).prop_map(|(start, ops)| C10Case { start, ops }).boxed()
+                    (proptest::sample::select(st), proptest::collection::vec(prop_oneof![6 => op_cheap(), 1 => Just(Op::Sign(1))], 4..9)).prop_map(|(start, ops)| C10Case { start, ops, sweep: 0, sweep_key: 0, sweep_t0: 0 }).boxed()
                 }),
+            },
+            Phase::Enumerate {
+                name: "signature-value-sweep",
+                total: tier.pick(64, 640),
+                exhaustive: false,
+                gen: {
+                    let st = self.starts.clone();
+                    Arc::new(move |i| {
+                        // blocks of consecutive timestamps; the cheap keys get many more signatures
+                        let key = [2u8, 3, 2, 3, 2, 3, 0, 2][(i % 8) as usize];
+                        let n = if key == 0 { 24 } else { 150 };
+                        Some(C10Case { start: st[(i as usize / 8) % st.len()], ops: vec![], sweep: n, sweep_key: key, sweep_t0: 1_500_000_000 + (i as u32) * 1000 })
+                    })
+                },
             },
         ]
     }
@@ -111,7 +133,42 @@ fn header_bytes(p: &rpm::Package) -> Result<Vec<u8>, (String, String)> {
     Ok(w[seg.hdr.start..seg.hdr.end].to_vec())
 }
 
+fn sweep(case: &C10Case, o: &mut Outcome) -> Result<(), (String, String)> {
+    o.label("signature-sweep");
+    let item = &pool()[case.start as usize % pool().len()];
+    let mut pkg = parse_pkg(&item.bytes)?;
+    let ks = keys();
+    let k = case.sweep_key as usize % 4;
+    o.evals = case.sweep as u64;
+    o.nontrivial = case.sweep as u64;
+    for i in 0..case.sweep {
+        let t = case.sweep_t0 + i;
+        let r = panics::catch(|| -> Result<(), String> {
+            pkg.sign_with_timestamp(ks.signers[k].clone(), t).map_err(|e| format!("sign failed: {e}"))?;
+            for v in 0..4 {
+                let ok = pkg.verify_signature(&ks.verifiers[v]).is_ok();
+                if ok != (v == k) {
+                    return Err(format!("signed by {} at timestamp {t}: verification with the {} key is {}", KEY_NAMES[k], KEY_NAMES[v], if ok { "Ok" } else { "Err" }));
+                }
+            }
+            match pkg.signature_key_ids() {
+                Ok(ids) if ids.len() == 1 && ids[0].to_lowercase() == ks.key_ids[k] => Ok(()),
+                other => Err(format!("signed by {} at timestamp {t}: signature_key_ids() = {:?}", KEY_NAMES[k], other.map_err(|e| e.to_string()))),
+            }
+        });
+        match r {
+            Ok(Ok(())) => {}
+            Ok(Err(d)) => return Err(("does-not-verify".into(), d)),
+            Err(p) => return Err(("panic".into(), p)),
+        }
+    }
+    Ok(())
+}
+
 fn inner(case: &C10Case, o: &mut Outcome) -> Result<(), (String, String)> {
+    if case.sweep > 0 {
+        return sweep(case, o);
+    }
     let item = &pool()[case.start as usize % pool().len()];
     let mut pkg = parse_pkg(&item.bytes)?;
     let start_header = header_bytes(&pkg)?;
